@@ -83,9 +83,10 @@ theorem inv_unexport {s : State} (h : Inv s) (p : Pk) (n : Nm) : Inv (unexport s
     · rw [if_pos hc]; exact Tab.unexportOwn_bodies h.bodies _ _ _ _
     · rw [if_neg hc]; exact h.bodies
 
-theorem inv_setq {s : State} (h : Inv s) (n : Nm) (val : Option Nat) : Inv (setq s n val) := by
-  unfold setq
-  cases hc : s.v.cell s.cur n with
+theorem inv_setqIn {s : State} (h : Inv s) (q : Pk) (n : Nm) (val : Option Nat) :
+    Inv (setqIn s q n val) := by
+  unfold setqIn
+  cases hc : s.v.cell q n with
   | none =>
     dsimp only
     refine ⟨h.graph, ?_, h.funs, h.bodies⟩
@@ -93,7 +94,20 @@ theorem inv_setq {s : State} (h : Inv s) (n : Nm) (val : Option Nat) : Inv (setq
   | some o =>
     dsimp only
     refine ⟨h.graph, ?_, h.funs, h.bodies⟩
-    exact Tab.assign_inv h.vars s.cur n val
+    exact Tab.assign_inv h.vars q n val
+
+theorem inv_setq {s : State} (h : Inv s) (n : Nm) (val : Option Nat) : Inv (setq s n val) :=
+  inv_setqIn h s.cur n val
+
+/-- `(setq q:n v)` / `(setq q::n v)` -/
+theorem inv_qsetq {s : State} (h : Inv s) (q : Pk) (n : Nm) (priv : Bool) (val : Nat) :
+    Inv (qsetq s q n priv val) := by
+  unfold qsetq
+  split
+  · split
+    · exact ⟨h.graph, Tab.assign_inv h.vars q n (some val), h.funs, h.bodies⟩
+    · exact h
+  · exact h
 
 theorem inv_defvar {s : State} (h : Inv s) (n : Nm) (val : Option Nat) : Inv (defvar s n val) := by
   unfold defvar
@@ -101,20 +115,42 @@ theorem inv_defvar {s : State} (h : Inv s) (n : Nm) (val : Option Nat) : Inv (de
   · rw [if_pos hc]; exact h
   · rw [if_neg hc]; exact inv_setq h n val
 
-theorem inv_makunbound {s : State} (h : Inv s) (n : Nm) : Inv (makunbound s n) :=
+/-- `(defvar q:n [v])` / `(defvar q::n [v])` -/
+theorem inv_qdefvar {s : State} (h : Inv s) (q : Pk) (n : Nm) (priv : Bool) (val : Option Nat) :
+    Inv (qdefvar s q n priv val) := by
+  unfold qdefvar
+  split
+  · split
+    · split
+      · exact h
+      · exact ⟨h.graph, Tab.assign_inv h.vars q n val, h.funs, h.bodies⟩
+    · exact h
+  · exact inv_setqIn h q n val
+
+theorem inv_unintern {s : State} (h : Inv s) (q : Pk) (n : Nm) : Inv (unintern s q n) :=
   ⟨h.graph, Tab.remove_inv h.graph h.vars _ _, h.funs, h.bodies⟩
+
+theorem inv_makunbound {s : State} (h : Inv s) (n : Nm) : Inv (makunbound s n) :=
+  inv_unintern h s.cur n
+
+theorem inv_intern {s : State} (h : Inv s) (q : Pk) (n : Nm) : Inv (intern s q n) := by
+  unfold intern
+  split
+  · exact h
+  · exact inv_setqIn h q n none
 
 theorem inv_fmakunbound {s : State} (h : Inv s) (n : Nm) : Inv (fmakunbound s n) :=
   ⟨h.graph, h.vars, Tab.remove_inv h.graph h.funs _ _, Tab.remove_bodies h.bodies _ _ _ _⟩
 
-theorem inv_defun {s : State} (h : Inv s) (n : Nm) (body : Nat) : Inv (defun s n body) := by
-  unfold defun
-  cases hc : s.f.cell s.cur n with
+theorem inv_defunIn {s : State} (h : Inv s) (q : Pk) (n : Nm) (body : Nat) :
+    Inv (defunIn s q n body) := by
+  unfold defunIn
+  cases hc : s.f.cell q n with
   | some o =>
     dsimp only
     refine ⟨h.graph, h.vars, ?_, ?_⟩
-    · exact Tab.assign_inv h.funs s.cur n (some body)
-    · exact Tab.assign_bodies h.bodies s.cur n body
+    · exact Tab.assign_inv h.funs q n (some body)
+    · exact Tab.assign_bodies h.bodies q n body
   | none =>
     dsimp only
     refine ⟨h.graph, ?_, ?_, ?_⟩
@@ -125,6 +161,9 @@ theorem inv_defun {s : State} (h : Inv s) (n : Nm) (body : Nat) : Inv (defun s n
     split
     · exact Tab.remove_inv h.graph h.vars _ _
     · exact h.vars
+
+theorem inv_defun {s : State} (h : Inv s) (n : Nm) (body : Nat) : Inv (defun s n body) :=
+  inv_defunIn h s.cur n body
 
 theorem inv_gdefine {s : State} (h : Inv s) (n : Nm) (body : Nat) (exp : Bool) :
     Inv (gdefine s n body exp) :=
@@ -161,6 +200,11 @@ theorem inv_step {s : State} (h : Inv s) (op : Op) : Inv (step s op) := by
   | makunbound n => exact inv_makunbound h n
   | fmakunbound n => exact inv_fmakunbound h n
   | gdefine n b e => exact inv_gdefine h n b e
+  | qsetq q n pr v => exact inv_qsetq h q n pr v
+  | qdefvar q n pr v => exact inv_qdefvar h q n pr v
+  | qdefun q n b => exact inv_defunIn h q n b
+  | unintern q n => exact inv_unintern h q n
+  | intern q n => exact inv_intern h q n
 
 /-- **tables = closure of the graph after any history** -/
 theorem inv_run (ops : List Op) : Inv (run State.init ops) := by
@@ -315,13 +359,63 @@ theorem own_visible {s : State} (h : Inv s) {p : Pk} {n : Nm} {d : Def} :
 
 example : (run State.init sampleOps).f.defs 0 1 = some { exp := false, val := some 14 } := by decide
 
-/-- **no operation loses a package's own definitions**: an own variable survives every operation
-    except `makunbound` of that name by the package itself and `defun` of that name by the package
-    itself (which consumes the unbound placeholder left by an `export` in advance) -/
+theorem defunIn_keeps_var (s : State) (q : Pk) (m : Nm) (b : Nat) {p : Pk} {n : Nm}
+    (hc : ¬(p = q ∧ n = m)) (hd : (s.v.defs p n).isSome = true) :
+    ((defunIn s q m b).v.defs p n).isSome = true := by
+  unfold defunIn
+  split
+  · exact hd
+  · dsimp only
+    split
+    · exact Tab.remove_keeps _ _ _ _ hc hd
+    · exact hd
+
+theorem defunIn_keeps_fun (s : State) (q : Pk) (m : Nm) (b : Nat) {p : Pk} {n : Nm}
+    (hd : (s.f.defs p n).isSome = true) : ((defunIn s q m b).f.defs p n).isSome = true := by
+  unfold defunIn
+  split
+  · exact Tab.assign_keeps q m (some b) hd
+  · exact Tab.create_keeps s.users q m _ hd
+
+theorem qsetq_keeps (s : State) (q : Pk) (m : Nm) (pr : Bool) (v : Nat) {p : Pk} {n : Nm} :
+    ((s.v.defs p n).isSome = true → ((qsetq s q m pr v).v.defs p n).isSome = true) ∧
+    (qsetq s q m pr v).f = s.f := by
+  unfold qsetq
+  split
+  · split
+    · exact ⟨fun hd => Tab.assign_keeps q m (some v) hd, rfl⟩
+    · exact ⟨id, rfl⟩
+  · exact ⟨id, rfl⟩
+
+theorem qdefvar_keeps (s : State) (q : Pk) (m : Nm) (pr : Bool) (v : Option Nat) {p : Pk} {n : Nm} :
+    ((s.v.defs p n).isSome = true → ((qdefvar s q m pr v).v.defs p n).isSome = true) ∧
+    (qdefvar s q m pr v).f.defs = s.f.defs := by
+  unfold qdefvar
+  split
+  · split
+    · split
+      · exact ⟨id, rfl⟩
+      · exact ⟨fun hd => Tab.assign_keeps q m v hd, rfl⟩
+    · exact ⟨id, rfl⟩
+  · exact setqIn_keeps s q m v
+
+theorem intern_keeps (s : State) (q : Pk) (m : Nm) {p : Pk} {n : Nm} :
+    ((s.v.defs p n).isSome = true → ((intern s q m).v.defs p n).isSome = true) ∧
+    (intern s q m).f.defs = s.f.defs := by
+  unfold intern
+  split
+  · exact ⟨id, rfl⟩
+  · exact setqIn_keeps s q m none
+
+/-- **no operation loses a package's own definitions**: an own variable of `p` survives every
+    operation except the removal of that very name from `p` (`makunbound` with `p` current,
+    `(unintern 'n 'p)`) and a `defun` of that name in `p` (`defun` with `p` current,
+    `(defun p::n …)`), which consumes the unbound placeholder left by an `export` in advance -/
 theorem own_var_never_lost (s : State) (op : Op) {p : Pk} {n : Nm}
     (hd : (s.v.defs p n).isSome = true) :
     ((step s op).v.defs p n).isSome = true ∨
-    (s.cur = p ∧ (op = .makunbound n ∨ ∃ b, op = .defun n b)) := by
+    (s.cur = p ∧ (op = .makunbound n ∨ ∃ b, op = .defun n b)) ∨
+    op = .unintern p n ∨ ∃ b, op = .qdefun p n b := by
   cases op with
   | defpackage q us ex => left; exact (defpackage_keeps s q us ex).1 hd
   | inPackage q => left; exact hd
@@ -343,21 +437,25 @@ theorem own_var_never_lost (s : State) (op : Op) {p : Pk} {n : Nm}
   | setq m v => left; exact (setq_keeps s m (some v)).1 hd
   | defun m b =>
     by_cases hc : p = s.cur ∧ n = m
-    · right; exact ⟨hc.1.symm, Or.inr ⟨b, by rw [hc.2]⟩⟩
-    · left; show ((defun s m b).v.defs p n).isSome = true
-      unfold defun
-      split
-      · exact hd
-      · dsimp only
-        split
-        · exact Tab.remove_keeps _ _ _ _ hc hd
-        · exact hd
+    · right; left; exact ⟨hc.1.symm, Or.inr ⟨b, by rw [hc.2]⟩⟩
+    · left; exact defunIn_keeps_var s s.cur m b hc hd
   | makunbound m =>
     by_cases hc : p = s.cur ∧ n = m
-    · right; exact ⟨hc.1.symm, Or.inl (by rw [hc.2])⟩
+    · right; left; exact ⟨hc.1.symm, Or.inl (by rw [hc.2])⟩
     · left; exact Tab.remove_keeps _ _ _ _ hc hd
   | fmakunbound m => left; exact hd
   | gdefine m b e => left; exact hd
+  | qsetq q m pr v => left; exact (qsetq_keeps s q m pr v).1 hd
+  | qdefvar q m pr v => left; exact (qdefvar_keeps s q m pr v).1 hd
+  | qdefun q m b =>
+    by_cases hc : p = q ∧ n = m
+    · right; right; right; exact ⟨b, by rw [hc.1, hc.2]⟩
+    · left; exact defunIn_keeps_var s q m b hc hd
+  | unintern q m =>
+    by_cases hc : p = q ∧ n = m
+    · right; right; left; rw [hc.1, hc.2]
+    · left; exact Tab.remove_keeps _ _ _ _ hc hd
+  | intern q m => left; exact (intern_keeps s q m).1 hd
 
 /-- an own function survives every operation except `fmakunbound` of that name by the package
     itself -/
@@ -385,18 +483,24 @@ theorem own_fun_never_lost (s : State) (op : Op) {p : Pk} {n : Nm}
   | setq m v =>
     left; show ((setq s m (some v)).f.defs p n).isSome = true
     rw [(setq_keeps s m (some v) (p := p) (n := n)).2]; exact hd
-  | defun m b =>
-    left; show ((defun s m b).f.defs p n).isSome = true
-    unfold defun
-    split
-    · exact Tab.assign_keeps s.cur m (some b) hd
-    · exact Tab.create_keeps s.users s.cur m _ hd
+  | defun m b => left; exact defunIn_keeps_fun s s.cur m b hd
   | makunbound m => left; exact hd
   | fmakunbound m =>
     by_cases hc : p = s.cur ∧ n = m
     · right; exact ⟨hc.1.symm, by rw [hc.2]⟩
     · left; exact Tab.remove_keeps _ _ _ _ hc hd
   | gdefine m b e => left; exact Tab.define_keeps _ _ _ _ _ hd
+  | qsetq q m pr v =>
+    left; show ((qsetq s q m pr v).f.defs p n).isSome = true
+    rw [(qsetq_keeps s q m pr v (p := p) (n := n)).2]; exact hd
+  | qdefvar q m pr v =>
+    left; show ((qdefvar s q m pr v).f.defs p n).isSome = true
+    rw [(qdefvar_keeps s q m pr v (p := p) (n := n)).2]; exact hd
+  | qdefun q m b => left; exact defunIn_keeps_fun s q m b hd
+  | unintern q m => left; exact hd
+  | intern q m =>
+    left; show ((intern s q m).f.defs p n).isSome = true
+    rw [(intern_keeps s q m (p := p) (n := n)).2]; exact hd
 
 example : ((run State.init sampleOps).v.defs 1 0).isSome = true ∧
     ((run State.init sampleOps).f.defs 0 1).isSome = true := ⟨by decide, by decide⟩
@@ -441,11 +545,17 @@ theorem no_stale_after_unexport {s : State} (h : Inv s) (q : Pk) (n : Nm) {p : P
 example : (unexport (run State.init sampleOps) 1 0).f.find 0 0 = none ∧
     (run State.init sampleOps).f.find 0 0 = some 12 := ⟨by decide, by decide⟩
 
+/-- after `(unintern 'n 'q)` / `makunbound` removed `q`'s own variable, no table anywhere holds it -/
+theorem no_stale_after_unintern {s : State} (h : Inv s) (q : Pk) (n : Nm)
+    (hown : s.v.cell q n = some q) (p : Pk) :
+    (unintern s q n).v.cell p n ≠ some q :=
+  (inv_unintern h q n).vars.no_dangling (Tab.remove_own_defs_none s.uses s.users hown) p
+
 /-- after a package removed its own variable with `makunbound`, no table anywhere holds it -/
 theorem no_stale_after_makunbound {s : State} (h : Inv s) (n : Nm)
     (hown : s.v.cell s.cur n = some s.cur) (p : Pk) :
     (makunbound s n).v.cell p n ≠ some s.cur :=
-  (inv_makunbound h n).vars.no_dangling (Tab.remove_own_defs_none s.uses s.users hown) p
+  no_stale_after_unintern h s.cur n hown p
 
 /-- after a package removed its own function with `fmakunbound`, no table anywhere holds it -/
 theorem no_stale_after_fmakunbound {s : State} (h : Inv s) (n : Nm)
@@ -497,5 +607,131 @@ theorem qualified_access {s : State} (h : Inv s) (c q : Pk) (n : Nm) (priv : Boo
 example : (run State.init sampleOps).v.qualVar 1 1 false = none ∧
     (run State.init sampleOps).v.qualVar 1 1 true = some 13 ∧
     (run State.init sampleOps).f.qualFun 2 1 0 false = some 12 := ⟨by decide, by decide, by decide⟩
+
+/-! ## extension: status of a name (`find-symbol`), qualified writes, statements over all histories -/
+
+/-- one table: the status read off the table (own exported / own internal / inherited / absent)
+    equals the status recomputed from the graph — for ANY graph, name conflicts included (the
+    status does not depend on which exporter was chosen) -/
+theorem TInv.status_eq_graph {uses : Pk → List Pk} {t : Tab} (h : TInv uses t) (c : Pk) (n : Nm) :
+    t.status c n = graphStatus t.defs uses c n := by
+  unfold Tab.status graphStatus
+  cases he : t.entry c n with
+  | none =>
+    obtain ⟨h1, h2⟩ := h.entry_complete he
+    rw [h1, h2]; rfl
+  | some od =>
+    obtain ⟨o, d⟩ := od
+    rcases h.entry_sound he with ⟨e, hd⟩ | ⟨hd, hmem, hdo, hexp⟩
+    · subst e; rw [hd]; simp
+    · have hne : o ≠ c := by
+        intro e; subst e; rw [hd] at hdo; cases hdo
+      rw [hd]
+      have hemp : (candidates t.defs uses c n).isEmpty = false := by
+        cases hl : candidates t.defs uses c n with
+        | nil => rw [hl] at hmem; cases hmem
+        | cons a l => rfl
+      simp [hne, hemp]
+
+/-- **`find-symbol` agrees with the graph**: `:external` / `:internal` exactly for an own exported /
+    unexported definition, `:inherited` exactly when there is no own definition and a directly
+    used package exports the name, nothing otherwise (variable first, then function) -/
+theorem findSymbol_eq_graph {s : State} (h : Inv s) (c : Pk) (n : Nm) :
+    findSymbol s c n = symbolStatus s.v.defs s.f.defs s.uses c n := by
+  unfold findSymbol symbolStatus
+  rw [← h.vars.status_eq_graph c n, ← h.funs.status_eq_graph c n]
+  cases hv : s.v.entry c n with
+  | some od =>
+    obtain ⟨o, d⟩ := od
+    have hne : s.v.status c n ≠ 0 := by
+      unfold Tab.status; rw [hv]; dsimp only
+      by_cases h1 : o = c <;> by_cases h2 : d.exp = true <;> simp [h1, h2]
+    simp [hne]
+  | none =>
+    have hz : s.v.status c n = 0 := by unfold Tab.status; rw [hv]
+    rw [hz]
+    simp only [if_true]
+    cases hf : s.f.entry c n with
+    | none => unfold Tab.status; rw [hf]
+    | some od =>
+      obtain ⟨o, d⟩ := od
+      dsimp only
+      rcases h.funs.entry_sound hf with ⟨e, _⟩ | ⟨_, _, _, hexp⟩
+      · simp [e]
+      · simp [hexp]
+
+example : findSymbol (run State.init sampleOps) 0 0 = 3 ∧ findSymbol (run State.init sampleOps) 1 0 = 2 ∧
+    findSymbol (run State.init sampleOps) 1 1 = 1 ∧ findSymbol (run State.init sampleOps) 2 1 = 0 ∧
+    findSymbol (run State.init sampleOps) 0 1 = 1 := by decide
+
+/-- **after any history** (all operations of `Op`, the qualified forms, `intern`/`unintern` and the
+    Go-level `Define` included) and for any graph: what a package sees is its own definition or —
+    when it has none — an exported definition of a package it uses directly -/
+theorem lookup_sound_run (ops : List Op) {c o : Pk} {n : Nm} {d : Def} :
+    let s := run State.init ops
+    (s.v.entry c n = some (o, d) →
+      (o = c ∧ s.v.defs c n = some d) ∨
+      (s.v.defs c n = none ∧ o ∈ candidates s.v.defs s.uses c n ∧ s.v.defs o n = some d ∧ d.exp = true)) ∧
+    (s.f.entry c n = some (o, d) →
+      (o = c ∧ s.f.defs c n = some d) ∨
+      (s.f.defs c n = none ∧ o ∈ candidates s.f.defs s.uses c n ∧ s.f.defs o n = some d ∧ d.exp = true)) :=
+  lookup_sound (inv_run ops)
+
+/-- after any history: a name a package does not see has no own definition and no directly used
+    package exports it -/
+theorem lookup_complete_run (ops : List Op) {c : Pk} {n : Nm} :
+    let s := run State.init ops
+    (s.v.entry c n = none → s.v.defs c n = none ∧ candidates s.v.defs s.uses c n = []) ∧
+    (s.f.entry c n = none → s.f.defs c n = none ∧ candidates s.f.defs s.uses c n = []) :=
+  lookup_complete (inv_run ops)
+
+/-- after any history `find-symbol` reports the status the graph determines -/
+theorem findSymbol_run (ops : List Op) (c : Pk) (n : Nm) :
+    let s := run State.init ops
+    findSymbol s c n = symbolStatus s.v.defs s.f.defs s.uses c n :=
+  findSymbol_eq_graph (inv_run ops) c n
+
+/-- **writes through qualified names**: `(setq q::n v)` reaches any variable `q` owns and
+    `(setq q:n v)` an exported one (afterwards `q::n` reads `v`); an unexported variable is out
+    of reach of `q:n` (the state is unchanged) -/
+theorem qsetq_reaches {s : State} (h : Inv s) (q : Pk) (n : Nm) (priv : Bool) (v : Nat) {d : Def}
+    (hd : s.v.defs q n = some d) :
+    ((d.exp = true ∨ priv = true) → (qsetq s q n priv v).v.qualVar q n true = some v) ∧
+    (d.exp = false → priv = false → qsetq s q n priv v = s) := by
+  have hc : s.v.cell q n = some q := (h.vars.own q n).2 (by rw [hd]; rfl)
+  have he : s.v.entry q n = some (q, d) := Tab.entry_of hc hd
+  constructor
+  · intro hp
+    unfold qsetq
+    rw [he]
+    dsimp only
+    rw [if_pos hp]
+    dsimp only
+    unfold Tab.assign
+    rw [he]
+    dsimp only
+    have hc' : (s.v.setDef q n (some { d with val := some v })).cell q n = some q := hc
+    have hd' : (s.v.setDef q n (some { d with val := some v })).defs q n = some { d with val := some v } := by
+      simp [Tab.setDef]
+    unfold Tab.qualVar
+    rw [Tab.entry_of hc' hd']
+    simp
+  · intro h1 h2
+    unfold qsetq
+    rw [he]
+    simp [h1, h2]
+
+example : (qsetq (run State.init sampleOps) 1 1 true 99).v.qualVar 1 1 true = some 99 ∧
+    (qsetq (run State.init sampleOps) 1 1 false 99).v.qualVar 1 1 true = some 13 := ⟨by decide, by decide⟩
+
+/-- `(defvar q::n v)` never changes a bound variable of `q`, whoever is current -/
+theorem qdefvar_keeps_bound {s : State} (h : Inv s) (q : Pk) (n : Nm) (priv : Bool) (v : Option Nat)
+    {d : Def} (hd : s.v.defs q n = some d) (hb : d.val.isSome = true) :
+    qdefvar s q n priv v = s := by
+  have hc : s.v.cell q n = some q := (h.vars.own q n).2 (by rw [hd]; rfl)
+  have he : s.v.entry q n = some (q, d) := Tab.entry_of hc hd
+  unfold qdefvar
+  rw [he]
+  simp [hb]
 
 end SlipVerif.Pkg
